@@ -38,7 +38,7 @@ StepReset ==
     /\ stored' = {} /\ assoc' = {} /\ cursor' = EmptyCursor
     /\ up' = FALSE /\ policy' = "auto" /\ pub' = IdlePub /\ pubq' = <<>> /\ st' = IdleSt /\ rq' = <<>>
     /\ ackLock' = "none" /\ txHolder' = "none" /\ chan' = <<>> /\ app' = IdleApp
-    /\ expect' = {} /\ replayed' = {} /\ base' = EmptyCursor /\ ackd' = {} /\ lastRes' = "none"
+    /\ expect' = {} /\ replayed' = {} /\ sent' = {} /\ base' = EmptyCursor /\ ackd' = {} /\ lastRes' = "none"
     /\ nPub' = 0 /\ nImp' = 0 /\ nAck' = 0 /\ nForeign' = 0 /\ nReset' = 0 /\ crashes' = 0
 
 StepOpen ==
@@ -97,7 +97,7 @@ StepFreeRestart ==
           /\ base' = c /\ ackd' = {}
     /\ up' = FALSE /\ policy' = "auto" /\ pub' = IdlePub /\ pubq' = <<>> /\ st' = IdleSt /\ rq' = <<>>
     /\ ackLock' = "none" /\ txHolder' = "none" /\ chan' = <<>> /\ app' = IdleApp
-    /\ expect' = {} /\ replayed' = {} /\ lastRes' = "none"
+    /\ expect' = {} /\ replayed' = {} /\ sent' = {} /\ lastRes' = "none"
     /\ nReset' = nReset + 1
     /\ UNCHANGED <<nPub, nImp, nAck, nForeign, crashes>>
 
